@@ -23,10 +23,11 @@ func main() {
 	flag.IntVar(&opt.TimeoutMs, "timeout", 20000, "per-query timeout ms")
 	flag.Int64Var(&opt.MaxSteps, "maxsteps", 20000000, "instruction budget per path")
 	flag.IntVar(&opt.MaxDepth, "maxdepth", 400, "call depth bound")
-	flag.IntVar(&opt.MaxFork, "maxfork", 256, "max fan-out when concretising")
+	flag.IntVar(&opt.MaxFork, "maxfork", 4096, "max fan-out when concretising")
 	flag.IntVar(&opt.MaxAlloc, "maxalloc", 1<<16, "max make() length")
 	flag.StringVar(&opt.Tier, "tier", "quick", "quick|thorough")
 	flag.StringVar(&opt.SolverLog, "smtlog", "", "prefix for solver transcripts")
+	flag.IntVar(&opt.BudgetSec, "budget", 0, "wall-clock budget per harness in seconds (0 = none)")
 	flag.BoolVar(&opt.EagerAssume, "eager", true, "check feasibility right after each assume")
 	pat := flag.String("run", ".", "regexp of harness names")
 	verif := flag.String("verif", "/verif", "verif directory")
